@@ -6,6 +6,8 @@ Events (the case decides the interleaving; each is one reactor call):
   ['R', c]  dataReceived(frame(COMMAND(Func.release, None, None, None)))
   ['D', c]  connectionLost(reason)
   ['T', c]  the oldest pending reactor.callLater(1, looping_call.stop) of c fires
+  ['O', _]  the database is closed and reopened (DBI().close(); DBI().open()), as
+            Worker._do_copy and shelve.archive do while a client holds the lock
 
 Outside world replaced: transports (recording; no request is delivered after
 loseConnection or connectionLost -- Twisted's contract; an exception escaping
@@ -109,7 +111,10 @@ def run(n, events):
     obs = []
     for ev, k in events:
         del log[:]
-        if k < n:
+        if ev == 'O':
+            DBI().close()
+            DBI().open()
+        elif k < n:
             w = W[k]
             lc = w._Worker__looping_call
             if ev == 'A':
